@@ -369,6 +369,13 @@ let check_export dd nv (names : string option array) (tables : string array list
     List.iter (fun v -> if List.nth g v <> List.nth w v then prop "name of support variable %d is %S, expected %S" v (List.nth g v) (List.nth w v)) supp;
     if List.sort compare g <> List.sort compare w then prop "variable names %s, expected a permutation of %s" (show_names got_vn) (show_names exp_vn)
   | _ -> if got_vn <> exp_vn then prop "variable names are %s, expected %s" (show_names got_vn) (show_names exp_vn));
+  (* distinct (non-empty) variable names stay distinct in the file *)
+  (match got_vn with
+  | Some g ->
+    let sorted = List.sort compare g in
+    let rec dup = function a :: (b :: _ as r) -> if a = b then Some a else dup r | _ -> None in
+    (match dup sorted with Some d -> prop "variable name %S occurs twice in the exported file" d | None -> ())
+  | None -> ());
   let exp_rn = if o.named_roots && o.roots <> [] then Some (List.map string_of_mbytes exp_rootnames) else None in
   let got_rn = names_field (kv_exn hdr "rootnames") in
   if got_rn <> exp_rn then prop "root names are %s, expected %s" (show_names got_rn) (show_names exp_rn);
@@ -453,7 +460,7 @@ let check_mutation dd (base : string) (toks : string list) (res : string) : unit
     | Some _ -> stat "mal_skipped" 1
     | None -> (
       let off = int_of_string (kv_exn rt "off") in
-      let nnodes = int_of_string (kv_exn rt "nnodes") in
+      let nnodes = match int_of_string_opt (kv_exn rt "nnodes") with Some v -> v | None -> max_int in
       let sv = ints (kv_exn rt "sv") in
       let imp = kv_exn rt "imp" in
       match model_kind dd with
@@ -487,20 +494,7 @@ let check_mutation dd (base : string) (toks : string list) (res : string) : unit
                     prop "importer built a function with table %s for root %d, the model reads %s from the same bytes" (List.nth real j) j t)
                 roots
             end;
-            (* structure *)
-            if dd <> "bdd" then (
-              match String.index_opt res ':' with
-              | _ ->
-                let p =
-                  let rec f i = if i + 5 > String.length res then None else if String.sub res i 5 = "dump:" then Some (i + 5) else f (i + 1) in
-                  f 0
-                in
-                match p with
-                | None -> ()
-                | Some p ->
-                  let d = parse_dump (split_ws (String.sub res p (String.length res - p))) in
-                  (* the store may hold nodes that are not reachable from the roots *)
-                  ignore d)
+            ignore dd
         end)
   end
 
@@ -550,9 +544,13 @@ let () =
                 base := check_export dd nv names !tables o res aux
               | "M" | "L" -> check_mutation dd !base toks res
               | o -> failwith ("unknown op " ^ o)
-            with Bad (kind, msg) ->
+            with
+            | Bad (kind, msg) ->
               bad := true;
-              verdict_bad c i kind msg)
+              verdict_bad c i kind msg
+            | (Failure m | Invalid_argument m) ->
+              bad := true;
+              verdict_bad c i "corr" ("driver could not interpret the trace line: " ^ m ^ " :: " ^ String.sub l 0 (min 120 (String.length l))))
         groups;
       stat "cases" 1;
       stat ("cases_" ^ (match param c "k" with Some k -> k | None -> "?")) 1;
